@@ -390,6 +390,12 @@ func c11Body(c c11Case) string {
 	for i, n := range c.Names {
 		fmt.Fprintf(&sb, `<x%d:%s xmlns:x%d="%s"/>`, i, n.Local, i, n.Space)
 	}
+	if c.Form == "prop-twice" {
+		// every name once more: each DISTINCT property is still accounted for exactly once
+		for i, n := range c.Names {
+			fmt.Fprintf(&sb, `<y%d:%s xmlns:y%d="%s"/>`, i, n.Local, i, n.Space)
+		}
+	}
 	sb.WriteString(`</D:prop></D:propfind>`)
 	return sb.String()
 }
@@ -404,6 +410,9 @@ func c11Judge(sv c11Server, c c11Case) (clause, detail string) {
 	}
 	if q.Body != "" {
 		q.Header["Content-Type"] = "application/xml"
+	}
+	if c.Form == "empty-xml-type" {
+		q.Header["Content-Type"] = "application/xml; charset=utf-8" // some clients always announce XML
 	}
 	if c.Form == "empty-unannounced" {
 		q.Chunked = true // an empty body whose length is not announced is an empty body
@@ -487,7 +496,7 @@ func c11Judge(sv c11Server, c c11Case) (clause, detail string) {
 				if !has && !e.Optional[n] {
 					return "propname-lists-unavailable", n.String()
 				}
-			case "allprop", "empty", "empty-unannounced":
+			case "allprop", "empty", "empty-unannounced", "empty-xml-type":
 				if !has {
 					if e.Optional[n] {
 						continue
@@ -500,7 +509,7 @@ func c11Judge(sv c11Server, c c11Case) (clause, detail string) {
 				if d := chk(p.Node); d != "" {
 					return "value", fmt.Sprintf("%s of %s: %s", n, hp, d)
 				}
-			case "prop":
+			case "prop", "prop-twice":
 				requested := false
 				for _, rn := range c.Names {
 					if rn == n {
@@ -531,7 +540,7 @@ func c11Judge(sv c11Server, c c11Case) (clause, detail string) {
 			}
 		}
 		switch c.Form {
-		case "prop":
+		case "prop", "prop-twice":
 			for _, rn := range c.Names {
 				if counts[rn] != 1 {
 					return "prop-not-accounted", fmt.Sprintf("%s of %s", rn, hp)
@@ -589,13 +598,17 @@ func init() {
 			}
 			for _, res := range sv.Resources {
 				for _, d := range []string{"-", "0", "1", "infinity"} {
-					for _, f := range []string{"empty", "empty-unannounced", "allprop", "propname", "none", "none-include", "none-empty-include", "none-unknown-child", "none-foreign-allprop"} {
+					for _, f := range []string{"empty", "empty-unannounced", "empty-xml-type", "allprop", "propname", "none", "none-include", "none-empty-include", "none-unknown-child", "none-foreign-allprop"} {
 						cases = append(cases, c11Case{Server: sv.Name, Target: res.Path, Depth: d, Form: f})
 						svIdx = append(svIdx, si)
 					}
-					for _, ss := range subsets {
+					for si2, ss := range subsets {
 						cases = append(cases, c11Case{Server: sv.Name, Target: res.Path, Depth: d, Form: "prop", Names: ss})
 						svIdx = append(svIdx, si)
+						if len(ss) <= 2 && si2%3 == 0 {
+							cases = append(cases, c11Case{Server: sv.Name, Target: res.Path, Depth: d, Form: "prop-twice", Names: ss})
+							svIdx = append(svIdx, si)
+						}
 					}
 					// a collection of the file server addressed in its trailing-slash spelling
 					if sv.Name == "webdav-memfs" && res.Path != "/" && res.Has[dav("resourcetype")] != nil && !strings.HasSuffix(res.Path, "/") && res.Optional[dav("getetag")] {
@@ -609,7 +622,7 @@ func init() {
 		}
 		r.Rule = "servers: webdav.Handler over an in-memory FileSystem holding files that lack mtime/type/tag, caldav.Handler and carddav.Handler over doubles with 2 collections x 2 objects and optional fields set/unset, ServePrincipal with 0/1/2 home sets; every resource of every hierarchy level addressed x Depth{absent,0,1,infinity} x form{empty body, allprop, propname, none-of-three, prop{N}} with N over every subset (thorough: all 511; quick: size<=2 and the full set) of a 9-name universe mixing available, unavailable, unknown and foreign-namespace names; non-trivial = form prop/allprop/propname on a resource (all cases; each distinct)"
 		r.Explanation = "each PROPFIND is served by the real handler; the body is read by the independent strict multistatus reader (well-formedness, namespaces, one prop per propstat) and compared with reference tables derived from the backend double's values: scope by hierarchy and Depth, one response and one href per resource, every requested name exactly once under 200 with the reference value or empty under 404"
-		r.Assumptions = []string{"propstat grouping/order, DAV:include and duplicate request names are not judged", "whether a calendar without description has calendar-description, and live properties of file-server collections other than resourcetype, are not judged"}
+		r.Assumptions = []string{"propstat grouping/order and DAV:include are not judged", "whether a calendar without description has calendar-description, and live properties of file-server collections other than resourcetype, are not judged"}
 		r.Parallel(len(cases), func(i int, s *engine.Shard) {
 			c := cases[i]
 			sv := servers[svIdx[i]]
